@@ -7,9 +7,9 @@
    strategies (PS35!Wire) and the expected read-back (PS35!Norm), and checks for every
    case that the independent TLA+ parser inverts the reference encoder.
 2. TLC model-checks the implementation-shaped writer machine DataSetWriter.tla over the
-   token streams of the structure set (accounting, balanced delimiters, output = Wire
-   unless a recorded explicit item length survives after a pixel sequence, output always
-   valid) and prints every run; the runs are replayed on the real DataSetWriter.
+   token streams of the structure set (accounting, balanced delimiters, output = Wire,
+   no recorded explicit item length survives the default strategy, output always valid)
+   and prints every run; the runs are replayed on the real DataSetWriter.
 3. drv_dataset builds each data set as an InMemDicomObject (in memory, and by reading the
    reference stream when items carry explicit lengths), writes it with the default options
    and both strategies in the case's syntax (+ Deflated Explicit VR LE for EVRLE cases,
@@ -18,6 +18,12 @@
    read-back is a violation.  Byte differences from PS35!Wire alone are drift.
 4. Seeded random larger data sets (all VRs incl. typed dates/times/numbers, depth <= 4)
    are written and read back; Trace_PS35 (TLC) judges stream and read-back per event.
+5. Thorough tier only, growth beyond the listed properties (observations are notes):
+   ObjectEdit.tla (objects read with recorded lengths, edited through apply /
+   update_value_at / nested update_value, written with both strategies: TLC predicts the
+   bytes and which runs are malformed; replayed on the real API) and Trace_Dump.tla
+   (dicom_dump text/JSON outlines of every object of the sweeps under every option
+   combination, judged at property level and against a model of dump/src/lib.rs).
 """
 import json
 import os
@@ -102,3 +108,58 @@ def run(ctx):
     ctx.extra_cov["random_bytes"] = rr["bytes_total"]
     P.validate(ctx, "Trace_PS35", rr["path"], "seeded random data sets")
     ctx.exhaustive = False
+    if not q:
+        growth(ctx, env, cases)
+
+
+def growth(ctx, env, cases):
+    """Specification growth beyond the listed properties (thorough tier only).  Observations are
+    notes / extra coverage; only a panic of a writer or dumper on a well-formed object is a C01
+    violation ("writing never fails and never panics")."""
+    # A. objects read with recorded lengths, edited in memory, written again (ObjectEdit.tla)
+    ecases = ctx.path("edit_runs.ndjson")
+    res = P.generate_parallel(ctx, [("ObjectEdit", "MC_ObjectEdit.cfg", ecases)])
+    re_ = vlib.run_driver("drv_dataset", ["edits", "--cases", ecases, "--out", ctx.path("edits")], env=env, timeout=3000)
+    ctx.cov["evaluations"] += re_["cases"]
+    ctx.extra_cov["edit_model_states"] = res[0]["distinct"]
+    ctx.extra_cov["edit_runs_replayed"] = re_["cases"]
+    ctx.extra_cov["edit_runs_bytes_equal_to_model"] = re_["equal_to_model"]
+    ctx.extra_cov["edit_runs_malformed_output"] = re_["predicted_malformed"]
+    ctx.extra_cov["edit_runs_malformed_kinds"] = re_["malformed_kinds"]
+    ctx.extra_cov["edit_runs_valid_and_read_back_equal"] = re_["valid_read_back_equal"]
+    for m in re_["mismatches"]:
+        if m.get("prop") == "C01":
+            ctx.violation(m["fp"], json.dumps({k: v for k, v in m.items() if k != "case"})[:500], m)
+        else:
+            ctx.note("edited objects (outside the listed properties): %s: %s" % (m["fp"], str(m.get("error", ""))[:200]))
+    if re_["predicted_malformed"]:
+        ctx.note("observation (outside the listed properties; documented caller obligation of ExplicitLengthSqItemStrategy::NoChange): "
+                 "%d of %d edit runs write a malformed stream because a recorded item length became stale, exactly as "
+                 "ObjectEdit.tla predicts: %s.  InMemDicomObject::apply resets the sequences on the selector path and the "
+                 "object holding the leaf, update_value_at resets the sequences and the root only (its doc says 'resets all "
+                 "related lengths recorded'); items passed on the way keep their recorded length.  With the default strategy "
+                 "every such run is valid." % (re_["predicted_malformed"], re_["cases"], json.dumps(re_["malformed_kinds"])))
+    if re_["valid_read_back_differs"]:
+        ctx.note("edited objects: %d runs predicted valid do not read back equal: %s" % (re_["valid_read_back_differs"], re_["valid_read_back_notes"]))
+    if re_["drift"]:
+        ctx.note("edited objects: %d runs differ in bytes from ObjectEdit.tla; first: %s" % (re_["drift"], json.dumps(re_["drift_first"])[:400]))
+        P.validate_as_notes(ctx, "Trace_PS35", re_["streams_path"], "edited objects differing from the model", P.EVENTS)
+
+    # B. dicom_dump as a consumer of the same objects (Trace_Dump.tla)
+    rd = vlib.run_driver("drv_dataset", ["dump", "--cases", cases, "--out", ctx.path("dump")], env=env, timeout=3000)
+    ctx.cov["evaluations"] += rd["dump_calls"]
+    ctx.extra_cov["dump_objects"] = rd["objects"]
+    ctx.extra_cov["dump_calls"] = rd["dump_calls"]
+    for m in rd["mismatches"]:
+        if m.get("prop") == "C01":
+            ctx.violation(m["fp"], json.dumps({k: v for k, v in m.items() if k != "case"})[:500], m)
+        else:
+            ctx.note("dicom_dump (outside the listed properties): %s: %s" % (m["fp"], str(m.get("error", ""))[:200]))
+    if rd["json_failures"]:
+        ctx.note("dicom_dump JSON format fails for %d objects; first: %s" % (rd["json_failures"], json.dumps(rd["json_failure_first"])[:300]))
+    if rd["option_variants_differ"]:
+        ctx.note("dicom_dump: %d objects whose outline depends on width / limits" % rd["option_variants_differ"])
+    n1, rj1 = P.validate_as_notes(ctx, "Trace_Dump", rd["property_path"], "dicom_dump outline, property level", ("dump",))
+    n2, rj2 = P.validate_as_notes(ctx, "Trace_Dump", rd["model_path"], "dicom_dump outline, model of dump/src/lib.rs", ("dump",))
+    ctx.extra_cov["dump_outlines_validated"] = n1 + n2
+    ctx.extra_cov["dump_outline_rejections"] = {"property": len(rj1), "model": len(rj2)}
